@@ -41,14 +41,19 @@ func (t *mixedTable) insert(k, v Value) {
 	if ok && t.array.setValue(i, v) {
 		return
 	}
+	if ok {
+		k = IntValue(i)
+	}
+	// Assigning to an existing field must not rehash the table (it is allowed
+	// during a traversal).
+	if t.hashTable.reset(k, v) {
+		return
+	}
 	if t.hashTable.full() {
 		t.grow()
 		if ok && t.array.setValue(i, v) {
 			return
 		}
-	}
-	if ok {
-		k = IntValue(i)
 	}
 	t.hashTable.set(k, v)
 }
